@@ -21,7 +21,7 @@ from ..algebra_lin import linear_form
 FILESET = "typhon/files/fileset.py"
 TIMEUTILS = "typhon/utils/timeutils.py"
 TREES = "typhon/trees.py"
-EXPECT = {"C01.semiopen": 4, "C01.prune": 8, "C01.anchor": 3, "C01.exclude": 3, "C01.blacklist": 3, "C01.sortkey": 2, "C01.bundle": 2,
+EXPECT = {"C01.semiopen": 4, "C01.prune": 8, "C01.anchor": 3, "C01.exclude": 3, "C01.blacklist": 3, "C01.sortkey": 2, "C01.bundle": 3,
           "C01.trunc": 1, "C01.restable": 2, "C01.len": 3, "C01.pathstate": 1, "C01.reset": 1}
 
 US = {"microseconds": 1, "milliseconds": 1000, "seconds": 10 ** 6, "minutes": 60 * 10 ** 6, "hours": 3600 * 10 ** 6, "days": 86400 * 10 ** 6, "weeks": 7 * 86400 * 10 ** 6}
@@ -440,7 +440,9 @@ def rule_blacklist(ctx):
     okc = False
     if lp and len(c.body) == 2 and norm(c.body[1]) == "return True":
         lb = [norm(s) for s in lp[0].body]
-        okc = norm(lp[0].iter) == "%s.items()" % bl and lb == ["value = %s.get(placeholder, None)" % ph, "if value is None:\n    continue", "if forbidden.match(value):\n    return False"]
+        okc = norm(lp[0].iter) == "%s.items()" % bl and lb == ["value = %s.get(placeholder, None)" % ph, "if value is None:\n    continue", "if forbidden.fullmatch(value):\n    return False"]
+        if not okc and lb[:2] == ["value = %s.get(placeholder, None)" % ph, "if value is None:\n    continue"] and lb[2:] == ["if forbidden.match(value):\n    return False"]:
+            body = body + ["[re.match anchors only the beginning: the value 'NOAA18' is rejected by the forbidden value 'NOAA1']"]
     elif not lp and len(c.body) == 1 and isinstance(c.body[0], ast.Return):
         # one expression: not any(rx.match(ph[k]) for k, rx in bl.items() if ph.get(k) is not None)
         v = c.body[0].value
@@ -455,17 +457,17 @@ def rule_blacklist(ctx):
             present = [norm(i).replace(" ", "") for i in g.ifs]
             elt = norm(inner.args[0].elt).replace(" ", "")
             ok_present = present in (["%s.get(%s)isnotNone" % (ph, k_)], ["%s.get(%s,None)isnotNone" % (ph, k_)], ["%sin%s" % (k_, ph), "%s[%s]isnotNone" % (ph, k_)])
-            ok_elt = elt in ("%s.match(%s[%s])" % (rx_, ph, k_), "%s.match(%s.get(%s))" % (rx_, ph, k_), "%s.match(%s.get(%s,None))" % (rx_, ph, k_))
+            ok_elt = elt in ("%s.fullmatch(%s[%s])" % (rx_, ph, k_), "%s.fullmatch(%s.get(%s))" % (rx_, ph, k_), "%s.fullmatch(%s.get(%s,None))" % (rx_, ph, k_))
             okc = dotted(inner.func) == "any" and neg and norm(g.iter) == "%s.items()" % bl and ok_present and ok_elt
         else:
             raise AnalysisError("_check_file: single return expression not understood")
     else:
         raise AnalysisError("_check_file: neither the loop form nor a single any(...) expression")
-    ctx.ob("FileSet._check_file", okc, "%s" % body, "False only when a forbidden regex matches the file's value of that placeholder; absent placeholders are skipped; True otherwise", node=c.node, func=c)
+    ctx.ob("FileSet._check_file", okc, "%s" % body, "False only when a forbidden regex matches the file's WHOLE value of that placeholder (fullmatch, as the white list selects whole values); absent placeholders are skipped; True otherwise", node=c.node, func=c)
 
 
 def rule_sort_bundle(ctx):
-    ctx.rule("C01.sortkey", "T6+T4", "the stream is sorted exactly when sort or an integer bundle is requested, ascending by (t0, t1)")
+    ctx.rule("C01.sortkey", "T6+T4", "the stream is sorted exactly when sort or a bundle (by count or by time frequency) is requested, ascending by (t0, t1)")
     f = ctx.func(FILESET, "FileSet._prepare_find_return")
     fi, so, op, bs = f.params[:4]
     first = next((s_ for s_ in f.body if not isinstance(s_, (ast.FunctionDef, ast.Assign))), f.body[0])
@@ -473,11 +475,13 @@ def rule_sort_bundle(ctx):
     fact = None
     if isinstance(first, ast.If):
         tt = {}
-        for s, isint in itertools.product([False, True], repeat=2):
-            tt[(s, isint)] = bool(Interp({so: s, "isinstance(%s, int)" % bs: isint}).ev(first.test))
+        for s, kind_ in itertools.product([False, True], ("none", "int", "str")):
+            env_b = {so: s, "isinstance(%s, int)" % bs: kind_ == "int", "isinstance(%s, str)" % bs: kind_ == "str", "isinstance(%s, (int, str))" % bs: kind_ != "none",
+                     "isinstance(%s, (str, int))" % bs: kind_ != "none", "%s is not None" % bs: kind_ != "none", "%s is None" % bs: kind_ == "none", bs: kind_ != "none"}
+            tt[(s, kind_)] = bool(Interp(env_b).ev(first.test))
         srt = calls_in(first, "sorted")
-        fact = "if %s: %s" % (norm(first.test), norm(first.body[0])[:100])
-        ok = all(tt[k] == (k[0] or k[1]) for k in tt) and len(srt) == 1
+        fact = "if %s: %s  [sorted for (sort, bundle): %s]" % (norm(first.test), norm(first.body[0])[:80], sorted(k for k, v in tt.items() if v))
+        ok = all(tt[k] == (k[0] or k[1] != "none") for k in tt) and len(srt) == 1
         if ok:
             kw = {k.arg: k.value for k in srt[0].keywords}
             key = kw.get("key")
@@ -532,6 +536,16 @@ def rule_sort_bundle(ctx):
         data = tc.args[0] if tc.args else next((k_.value for k_ in tc.keywords if k_.arg == "data"), None)
         index = tc.args[1] if len(tc.args) > 1 else next((k_.value for k_ in tc.keywords if k_.arg == "index"), None)
         okts = data is not None and index is not None and norm(data) == "files" and norm(index) == "[file.times[0] for file in files]"
+    # grouping by time frequency needs a DatetimeIndex: an empty selection has none (pandas raises TypeError) - it must be answered before
+    if ts:
+        bflow = Flow(f)
+        grp = [c_ for c_ in calls_in(f.node, ("groupby", "resample", "Grouper"))]
+        tsn = bflow.cfg.nodes(ts[0])
+        eg = [st_ for st_ in bflow.stmts if isinstance(st_, ast.If) and emptiness_test_kind_(st_.test) and any(isinstance(x, ast.Return) for x in st_.body)
+              and all(bflow.cfg.dominated_by(n_, set(bflow.cfg.nodes(st_))) for n_ in tsn)]
+        ctx.ob("FileSet._prepare_find_return.bundle_empty", bool(eg), "emptiness guards before the time series is grouped: %s" % ([str(norm(g_.test)) for g_ in eg] or "none"),
+               "an empty selection yields no bundle (find(bundle='1h', no_files_error=False) on a period without files raised TypeError: Only valid with DatetimeIndex)",
+               node=ts[0], func=f, witness=None if eg else {"find": "bundle='1h', no_files_error=False, period without files", "raises": "TypeError"})
     ctx.ob("FileSet._prepare_find_return.bundle_other", okn and okts, "no bundle: %s; by frequency: %s" % ([norm(s) for s in none_arm[0].body] if none_arm else None, norm(ts[0].value) if ts else None),
            "no bundle -> the stream itself; by frequency -> groups of the same list indexed by start time", node=f.node, func=f)
 
@@ -637,6 +651,14 @@ def rule_trunc_table(ctx):
     okv = d.get("month", 0) >= 31 * US["days"] and d.get("year", 0) >= 366 * US["days"] and d.get("day") == US["days"] and d.get("hour") == US["hours"]
     ctx.ob("FileSet._temporal_resolution.values", okv, "year=%s d, month=%s d" % (d.get("year", 0) / US["days"], d.get("month", 0) / US["days"]),
            "year >= 366 d and month >= 31 d: the fixed look-back over-approximates the variable periods", node=t, func=fobj)
+
+
+def emptiness_test_kind_(t):
+    """a test that holds exactly for an empty list / array: a size test, or `not <name>` on a list"""
+    from ..flow import emptiness_test_kind
+    if emptiness_test_kind(t) == "size":
+        return True
+    return isinstance(t, ast.UnaryOp) and isinstance(t.op, ast.Not) and isinstance(t.operand, ast.Name)
 
 
 def rule_len(ctx):
